@@ -213,6 +213,9 @@ func KeyOf(f SFrame, c Cfg) Key {
 func Report(a *ap.AP, c Cfg) *Rep {
 	r := &Rep{Entries: map[Key]*Entry{}, Edges: map[[2]Key]*Edge{}}
 	var total, totalDiv int64
+	// samples of a diff base (label pprof::base=true, set by -diff_base): when there are any, the
+	// total is taken over them alone
+	var baseTotal, baseDiv int64
 	for si := range a.Stacks {
 		s := &a.Stacks[si]
 		w := s.Values[c.SI]
@@ -220,12 +223,19 @@ func Report(a *ap.AP, c Cfg) *Rep {
 		if c.Mean {
 			dw = s.Values[0]
 		}
-		if w < 0 {
-			total -= w
-		} else {
-			total += w
+		aw := w
+		if aw < 0 {
+			aw = -aw
 		}
+		total += aw
 		totalDiv += dw
+		for _, v := range s.Labels["pprof::base"] {
+			if v == "true" {
+				baseTotal += aw
+				baseDiv += dw
+				break
+			}
+		}
 		frames := StackFrames(a, s, c)
 		if len(frames) > 0 {
 			r.Traces = append(r.Traces, div(w, dw))
@@ -275,6 +285,9 @@ func Report(a *ap.AP, c Cfg) *Rep {
 		}
 	}
 	r.Total = div(total, totalDiv)
+	if baseTotal > 0 {
+		r.Total = div(baseTotal, baseDiv)
+	}
 	for k, e := range r.Entries {
 		r.AllNames = append(r.AllNames, k.Printable())
 		if e.Flat == 0 && e.Cum == 0 {
